@@ -80,11 +80,16 @@ pub struct RunOpts {
     /// make every atomic operation a scheduling point
     pub atomic_points: bool,
     pub max_steps: u64,
+    /// Mutexes whose protected type name contains one of these substrings are declared
+    /// task-local for this scenario: their lock operations are not scheduling points.  Checked:
+    /// if a second task ever locks such a mutex the execution is flagged (`elision_broken`) and
+    /// the driver re-explores the scenario with elision off.
+    pub elide: Vec<&'static str>,
 }
 
 impl Default for RunOpts {
     fn default() -> Self {
-        RunOpts { atomic_points: false, max_steps: 200_000 }
+        RunOpts { atomic_points: false, max_steps: 200_000, elide: vec![] }
     }
 }
 
@@ -109,6 +114,9 @@ pub struct Runtime {
     pub tick: u64,
     pub steps: u64,
     mutex_holder: Vec<Option<u32>>,
+    /// per mutex: elidable?, first locker
+    mutex_elide: Vec<(bool, Option<u32>)>,
+    pub elision_broken: bool,
     pub chans: Vec<ChanMeta>,
     pub pools: Vec<PoolMeta>,
     gates: Vec<usize>,
@@ -285,6 +293,7 @@ pub struct ExecResult {
     pub pools: Vec<PoolMeta>,
     /// machinery failure (divergence, tripwire, …) — never a verdict
     pub fatal: Option<String>,
+    pub elision_broken: bool,
 }
 
 fn take_stack() -> DefaultStack {
@@ -409,10 +418,38 @@ pub fn machinery_error(msg: String) -> ! {
 
 // ---- registry helpers used by the primitives ------------------------------------------------
 
-pub(crate) fn new_mutex_id() -> u32 {
+pub(crate) fn new_mutex_id(tname: &'static str) -> u32 {
     with_rt(|rt| {
         rt.mutex_holder.push(None);
+        let el = rt.opts.elide.iter().any(|s| tname.contains(s));
+        rt.mutex_elide.push((el, None));
         (rt.mutex_holder.len() - 1) as u32
+    })
+}
+
+/// Elided acquire: succeeds without a scheduling point when the mutex is declared task-local,
+/// free, and has only ever been locked by the current task.
+pub(crate) fn mutex_try_elided(m: u32) -> bool {
+    with_rt(|rt| {
+        let cur = rt.current as u32;
+        let e = &mut rt.mutex_elide[m as usize];
+        if !e.0 {
+            return false;
+        }
+        match e.1 {
+            None => e.1 = Some(cur),
+            Some(t) if t == cur => {}
+            Some(_) => {
+                e.0 = false;
+                rt.elision_broken = true;
+                return false;
+            }
+        }
+        if rt.mutex_holder[m as usize].is_some() {
+            return false;
+        }
+        rt.mutex_holder[m as usize] = Some(cur);
+        true
     })
 }
 
@@ -510,6 +547,8 @@ pub fn execute(chooser: &mut dyn Chooser, opts: RunOpts, body: Box<dyn FnOnce()>
         tick: 0,
         steps: 0,
         mutex_holder: Vec::with_capacity(16),
+        mutex_elide: Vec::with_capacity(16),
+        elision_broken: false,
         chans: Vec::with_capacity(4),
         pools: Vec::with_capacity(2),
         gates: Vec::with_capacity(2),
@@ -566,6 +605,7 @@ pub fn execute(chooser: &mut dyn Chooser, opts: RunOpts, body: Box<dyn FnOnce()>
         chans: std::mem::take(&mut rt.chans),
         pools: std::mem::take(&mut rt.pools),
         fatal: rt.fatal.take(),
+        elision_broken: rt.elision_broken,
         log: std::mem::take(&mut rt.log),
     }
 }
